@@ -583,6 +583,16 @@ func (c13) Generate(r *rand.Rand, t string) []*Case {
 		}
 	}
 
+	// (6) the Group form of Null (g.Null() inside ...Func callbacks), slots filled later by
+	// chaining (c13_group.go)
+	out = append(out, c13gFixed()...)
+	ng := tier(t, 1500, 30000)
+	for i := 0; i < ng; i++ {
+		out = append(out, c13gRandom(r, i%3 == 0))
+	}
+	// (7) Custom groups with only one delimiter are never null (c13_custom.go)
+	out = append(out, c13HalfCases()...)
+
 	// (5) programs
 	np := tier(t, 3000, 60000)
 	for i := 0; i < np; i++ {
@@ -1274,6 +1284,10 @@ func c13Body(out string) (string, bool) {
 
 func (c13) Oracle(c *Case, got []hist.Obs) string {
 	switch c.Meta["kind"] {
+	case "gnull":
+		return c13gOracle(c, got)
+	case "half":
+		return c13HalfOracle(c, got)
 	case "list":
 		if len(got) != 2 {
 			return fmt.Sprintf("expected 2 observations, got %d", len(got))
